@@ -15,7 +15,7 @@ func C02(run *core.Run) {
 		"delivery schedules (batch boundaries, overlaps, re-deliveries, forks) are enumerated by TLC on Sync.tla over short abstract histories and replayed with gossip-first and restarts; long histories (all contracts, rewards across epochs) are delivered under a fixed list of schedules",
 		"equality is byte equality of the logical store content (frontier and historical views) plus InsertChain returning (0, nil)",
 	}
-	every := int64(12)
+	every := int64(40)
 	if run.Thorough() {
 		every = 3
 	}
